@@ -26,7 +26,8 @@ SCALARS = [b"1", b"2", b"10", b"-5", b"yes", b"no", b"1.5", b"-0.0", b"0.25", b"
            b"1.00125", b"20405029553322.015", b"0.00000000000000000000001", b"0.0000000000000000000001", b"-9223372036854775808",
            b"Yes", b"YES", b"No", b"NO", b"y", b"n", b"true", b"false", b"yes1", b"h\xe9llo", b"\xc3\xa9t\xc3\xa9", b"\xff\xfe", b"\xe2\x82", b"@var", b"@[1+2]", b"$add$", b"a.b.c", b"007", b"1e5", b"-1.50000"]
 QUOTED = [b'""', b'"x"', b'"no"', b'"No"', b'"-5"', b'"18446744073709551615"', b'"hello world"', b'"yes"', b'"01"', b'"a\\"b"', b'"tr\xe9s "', b'"back\\\\slash"', b'"1.5"', b'"line\nbreak"',
-          b'"tab\t"', b'"\xc3\xa9"', b'"\xed\xa0\x80"', b'"ctl\x01\x1f"', b'"{}=#"', b'"remainder"', b'"type"']
+          b'"tab\t"', b'"\xc3\xa9"', b'"\xed\xa0\x80"', b'"ctl\x01\x1f"', b'"{}=#"', b'"remainder"', b'"type"',
+          b'" lead"', b'"\ttab lead "', b'" "']   # a_dom (wave 4): leading / only whitespace inside quotes
 HEADERS = [b"rgb", b"hsv", b"hsv360", b"LIST", b"list"]
 ALPHABET = b'{}=<>!?"\\#[]@ \n\t;a1b2.-+yesno'
 
